@@ -233,6 +233,20 @@ def rule_r5(ctx):
         ctx.r.ok(rid, "now = time.time()", f.loc(nd[0]))
     else:
         ctx.r.violation(rid, key_of(f, None, "now-source"), "the maintenance clock is not time.time()", f.loc())
+    # the loop period is the configured one wherever the server starts the loop (single listener and MultiSocketServer)
+    nl = 0
+    for q, fr in sorted(p.functions.items()):
+        if fr.module.name != "server":
+            continue
+        for c in [x for x in ast.walk(fr.node) if isinstance(x, ast.Call) and isinstance(x.func, ast.Attribute) and x.func.attr == "loop" and "asyncore" in norm(x.func.value)]:
+            nl += 1
+            kw = {k.arg: norm(k.value) for k in c.keywords}
+            if kw.get("timeout", "").endswith("adj.asyncore_loop_timeout"):
+                ctx.r.ok(rid, "%s polls with asyncore_loop_timeout" % q, fr.loc(c))
+            else:
+                ctx.r.violation(rid, key_of(fr, None, "loop-timeout"), "%s starts the I/O loop with timeout=%s (default 30 s) instead of adj.asyncore_loop_timeout: maintenance only runs when the loop makes a pass, so idle connections are reaped up to a loop period late"
+                                % (q, kw.get("timeout")), fr.loc(c))
+    ctx.r.floor(rid, nl, 2, "places where the server starts the I/O loop")
     # the scheduling happens on every call, before the accepting test
     acc = [x for x in g.nodes if x.kind == "test" and dotted(x.ast) == "self.accepting"]
     tn = [x for x in g.nodes if x.kind == "test" and "next_channel_cleanup" in norm(x.ast)]
@@ -254,7 +268,14 @@ def rule_r6(ctx):
     ctx.r.violations[before:] = keep
 
 
-RULES = [rule_r1, rule_r2, rule_r3, rule_r4, rule_r5, rule_r6]
+def rule_r7(ctx):
+    """Shared with C13.R3: 'accepting resumes' - a fault while setting up one accepted connection does not close the
+    listening socket (every statement touching the accepted socket is inside the try of handle_accept)."""
+    from . import c13
+    c13.rule_r3(ctx, rid="C18.R7")
+
+
+RULES = [rule_r1, rule_r2, rule_r3, rule_r4, rule_r5, rule_r6, rule_r7]
 
 from ..selftest import M, T, V  # noqa: E402
 
